@@ -147,7 +147,7 @@ def ctor_rules(rep, prog):
         rep.bad("GUARD.ctor", fwhere(f4), "no ValueError exactly when len(mean) != len(covariance)")
     else:
         stores = S4.select("attrstore", qname=f4.qname)
-        late = [s for s in stores if (hit.path[-1][0], False) not in s.path]
+        late = [s for s in stores if (hit.path[-1][0], not hit.path[-1][1]) not in s.path]
         rep.check("GUARD.ctor", not late and len(stores) >= 2, fwhere(f4, hit.node), "size mismatch raises ValueError before anything is stored",
                   "attributes are stored without passing the size check")
     st = {s.attr: s.value for s in S4.select("attrstore", qname=f4.qname)}
@@ -217,7 +217,7 @@ def run(prog, rep, tier):
             else:
                 rep.bad("GUARD.conditional." + k, fwhere(f), "no ValueError is raised exactly when %s" % label)
             continue
-        cond = (r.path[-1][0], False)
+        cond = (r.path[-1][0], not r.path[-1][1])
         late = [x for x in invs if cond not in x.path]
         rep.check("GUARD.conditional." + k, not late, fwhere(f, r.node), "ValueError when %s, before any inverse / result" % label,
                   "the %s guard does not precede %s" % (label, norm(late[0].node)[:50] if late else ""))
